@@ -56,7 +56,7 @@ Fixpoint running_sums (acc : Q) (xs : list Q) : list tup :=
 Definition check_long (c : case) : verdict :=
   let ok_run := list_eqb tup_eqb (map (fun m => [m]) (run sum_step None (cxs c))) (crun c) in
   let ok_fin := list_eqb (opt_eqb tup_eqb) [option_map (fun m => [m]) (exec sum_step None (cxs c))] (cfins c) in
-  let spec := list_eqb tup_eqb (running_sums 0 (cxs c)) (crun c) && list_eqb (opt_eqb tup_eqb) [Some [qsum (cxs c)]] (cfins c) in
+  let spec := list_eqb tup_eqb (running_sums 0 (cxs c)) (crun c) && list_eqb (opt_eqb tup_eqb) [match cxs c with [] => None | _ => Some [qsum (cxs c)] end] (cfins c) in
   mkv (negb (cpanic c) && ok_run && ok_fin) (negb (cpanic c) && spec) true.
 Definition check_short (c : case) : verdict :=
   let k := ckind c in
